@@ -45,6 +45,7 @@ type world struct {
 	timing  bool
 	t0      time.Time
 	fams    []family
+	p       params
 	child   *job // non-nil in a worker process
 }
 
@@ -77,6 +78,24 @@ func (f family) String() string {
 		ids[i] = alphabet[x].id
 	}
 	return fmt.Sprintf("<=%d lines over {%s}", f.K, strings.Join(ids, " "))
+}
+
+// alphabet indices: a1=0 a2=1 soa=2 dot=3 soa2=4 n1=5 n2=6 aL=7 n3=8 wL=9
+func tierParams(thorough bool) params {
+	if !thorough {
+		return params{
+			// <=2 lines over a1 a2 soa soa2 n1 n2 (duplicates, two values under a key, a changed SOA, subnet
+			// churn), plus the one-line files of dot (composite, serial-dependent) and aL (located)
+			fams:      []family{{[]int{0, 1, 2, 4, 5, 6}, 2}, {[]int{3, 7}, 1}},
+			maxOrders: 6, strictMax: 2, allFaults: false, bfsDepth: 2, walkDepth: 2, walkLines: []int{0, 2, 5, 6},
+		}
+	}
+	return params{
+		// <=3 lines over the five lines that can share a key, <=2 lines over the first 8, all three nested
+		// subnets together, and every one-line file
+		fams:      []family{{firstLines(shareKey), 3}, {firstLines(8), 2}, {[]int{5, 6, 8}, 3}, {firstLines(len(alphabet)), 1}},
+		maxOrders: 24, strictMax: 3, allFaults: true, bfsDepth: 3, walkDepth: 3, walkLines: []int{0, 1, 2, 3, 5, 6},
+	}
 }
 
 func buildStates(r *vlib.Run, fams []family) []*state {
@@ -137,12 +156,8 @@ func main() {
 	ballast := make([]byte, 512<<20) // never touched: raises the heap goal so that freed spans stay mapped and are reused
 	defer runtime.KeepAlive(ballast)
 	debug.SetGCPercent(100) // every ApplyDiff allocates ~10 MB of batch slices; collect less often
-	// quick: <=2 lines over the first 8 alphabet lines; thorough: <=3 over the first 6, <=2 over all 10,
-	// and all three nested subnets together
-	fams := []family{{firstLines(8), 2}}
-	if r.Thorough() {
-		fams = []family{{firstLines(6), 3}, {firstLines(len(alphabet)), 2}, {[]int{5, 6, 8}, 3}}
-	}
+	w.p = tierParams(r.Thorough())
+	fams := w.p.fams
 	if v := os.Getenv("VERIF_C08_FAM"); v != "" { // development aid only
 		var n, k int
 		fmt.Sscanf(v, "%d,%d", &n, &k)
@@ -170,7 +185,7 @@ func main() {
 	bfs := newBFS(w)
 	w.pairTransitions(f, bfs)
 	w.lap("pair transitions (valid orders + faulty variants)")
-	bfs.run(f, r.Pick(2, 3))
+	bfs.run(f, w.p.bfsDepth)
 	w.lap("bfs chains")
 	w.walks(f)
 	w.lap("walks")
